@@ -25,6 +25,21 @@ CHECKS = {
         "deviating from every base in more than d fields outside the 4-field product are not reached.",
         "DESIGN.md 4/C01",
     ),
+    "C02": (
+        "exploration",
+        "translation validation by bounded-exhaustive enumeration: every generated ACL (deviation-"
+        "bounded single-entry ACLs, all item lists up to a length over a structural alphabet, single "
+        "objects) is converted by the real setters and the target text is read by the TARGET "
+        "platform's independent reader and compared rule by rule",
+        "Per ACL: target text valid for the target grammar (incl. per-platform name vocabularies), "
+        "same name/remarks/order/sequence numbers, each source rule <-> one adjacent block with equal "
+        "non-port fields, one operand per side on NX-OS, union of port products == original, group "
+        "members denote the same union on the same entries, blocks kept, A->B text == A->B->A->B "
+        "text; the same for single Ace/Address/AddressAg/AddrGroup; impossible conversions must "
+        "raise ValueError/TypeError.",
+        "Trusted: readers, generator meaning-by-construction. Multi-operand neq is excluded (C19).",
+        "DESIGN.md 4/C02",
+    ),
     "C03": (
         "exploration",
         "bounded-exhaustive enumeration of ordered ACE pairs (deviation bound over 16 field "
